@@ -456,8 +456,9 @@ class PathCtx:
         return ",".join("%s:%s" % (l, "T" if d else "F") for l, d in self.trace if l)
 
 
-def explore(run, max_paths=20000, time_limit_s=600, feas_timeout_ms=3000, shard=None):
-    """Run `run(ctx)` once per feasible path. Returns list of (ctx, result) and stats.
+def explore(run, max_paths=20000, time_limit_s=600, feas_timeout_ms=3000, shard=None, on_path=None):
+    """Run `run(ctx)` once per feasible path. Returns list of (ctx, result) and stats; with `on_path`, each finished path is
+    handed to it at once and nothing is kept (memory stays flat over hundreds of thousands of paths).
 
     shard=(i, n): the path tree is split deterministically into disjoint subtrees (breadth-first expansion until there
     are about 6n of them); shard i explores subtrees i, i+n, ...; the paths met during the expansion belong to shard 0."""
@@ -484,9 +485,14 @@ def explore(run, max_paths=20000, time_limit_s=600, feas_timeout_ms=3000, shard=
             pre.append((ctx, res))
         work = work[si::sn]
         if si == 0:
-            results.extend(pre)
+            if on_path is not None:
+                for c_, r_ in pre:
+                    on_path(c_, r_)
+            else:
+                results.extend(pre)
         else:
             n, infeasible = 0, 0
+        del pre
     while work:
         if n >= max_paths:
             raise Budget("more than %d paths" % max_paths)
@@ -502,5 +508,8 @@ def explore(run, max_paths=20000, time_limit_s=600, feas_timeout_ms=3000, shard=
             work.extend(ctx.alternatives)
             continue
         work.extend(ctx.alternatives)
-        results.append((ctx, res))
+        if on_path is not None:
+            on_path(ctx, res)
+        else:
+            results.append((ctx, res))
     return results, {"paths": n, "infeasible": infeasible, "wall_s": time.time() - t0}
